@@ -125,15 +125,15 @@ def validateArgs (O : Oracles) (strict : Bool) : List ArgDecl → Kwargs → Exc
       | some true => validateArgs O strict r kw
 
 /-- the (name, un-escaped text) pairs, in declared order -/
-def coerceArgs : List ArgDecl → Kwargs → Except Exc (List (Str × Str))
+def coerceArgs (O : Oracles) : List ArgDecl → Kwargs → Except Exc (List (Str × Str))
   | [], _ => .ok []
   | d :: r, kw =>
     match kw.lookup d.name with
     | none => .error (.unmodelled "KeyError")
     | some v =>
-      match coerceUpnp d.var.row v, coerceArgs r kw with
+      match coerceUpnp O d.var.row v, coerceArgs O r kw with
       | .ok t, .ok ts => .ok ((d.name, t) :: ts)
-      | .error e, _ => .error e
+      | .error e, _ => .error (.raw e)
       | _, .error e => .error e
 
 def renderArg (extra : List (Char × Str)) (p : Str × Str) : Str :=
@@ -160,7 +160,7 @@ def createRequest (O : Oracles) (extra : List (Char × Str)) (nsq : Bool) (a : A
     match validateArgs O a.strict a.inArgs kw with
     | .error e => .error e
     | .ok () =>
-      match coerceArgs a.inArgs kw with
+      match coerceArgs O a.inArgs kw with
       | .error e => .error e
       | .ok args =>
         .ok { method := "POST".toList, url := url,
